@@ -29,7 +29,7 @@ def requirements(tier):
                              "toggle_steps": 150 * k, "raised_after_apply": 15 * k, "fault_unit": 10 * k, "fault_allowed": 10 * k,
                              "fault_recompute": 15 * k},
             "required_classes": ["date_first", "date_interior", "date_last", "date_before", "date_after", "date_naive",
-                                 "job_shared_by_2_patterns", "multi_timezone", "change_link", "change_list", "change_num"]}
+                                 "job_shared_by_2_patterns", "multi_timezone", "change_link", "change_list", "change_num", "directed_unit_mix_staggered_patterns"]}
 
 
 def compare(tag, s0, system, V, C, ctx):
@@ -49,6 +49,17 @@ def run_case(case):
     if case["idx"] % 8 == 5:
         from .c17 import builder_spec
         spec0 = builder_spec(rnd)
+    directed = case["idx"] % 10 == 7
+    if directed:
+        # two jobs whose data is expressed in different units behind ONE network, an early pattern that is over when a later one starts:
+        # the simulation re-expresses one job's data in a third unit after the early pattern has ended (values of the early pattern are
+        # then read, not recomputed, and must be left as they are - also in the unit they are expressed in)
+        spec0 = gen.base_spec()
+        O0 = spec0["objects"]
+        O0["up2"]["params"]["network"] = ["ref", "n1"]
+        O0["up2"]["params"]["hourly_usage_journey_starts"][2] = "2025-01-03T05:00:00"
+        O0["j1"]["params"]["data_transferred"] = ["q", rnd.choice([150.0, 371.0]), "kB"]
+        O0["j3"]["params"]["data_transferred"] = ["q", rnd.choice([3.137, 0.237]), "MB"]
     h = Hist(rnd, case["tier"], spec=spec0)
     C = {k: 0 for k in ("simulations_run", "succeeded", "raised", "baseline_comparisons", "toggle_steps", "raised_after_apply",
                         "fault_unit", "fault_allowed", "fault_recompute", "build_failed", "previous_totals_checked")}
@@ -56,7 +67,7 @@ def run_case(case):
     if h.build_error:
         C["build_failed"] = 1
         return {"counters": C, "classes": sorted(classes), "violations": []}
-    for _ in range(rnd.choice([0, 0, 2])):
+    for _ in range(0 if directed else rnd.choice([0, 0, 2])):
         if h.apply(h.propose()) is not None:
             return {"counters": C, "classes": sorted(classes), "violations": []}
     sysm = h.system
@@ -66,6 +77,14 @@ def run_case(case):
     date = sim.pick_date(rnd, h.objs, h.spec, dk)
     if date is None:
         dk = "interior"; date = sim.pick_date(rnd, h.objs, h.spec, dk)
+    if directed:
+        from datetime import datetime, timezone, timedelta
+        classes.add("directed_unit_mix_staggered_patterns")
+        fault = None
+        j = rnd.choice(["j1", "j3"])
+        changes = [{"obj": j, "attr": "data_transferred", "value": ["q", rnd.choice([0.0005, 0.002]), "GB"]}]
+        first2 = h.objs["up2"].utc_hourly_usage_journey_starts.value.index.min().to_pydatetime()
+        date = first2 + timedelta(hours=rnd.choice([0, 2])); dk = "interior"
     classes.add("date_" + dk.split("_")[0])
     for c in changes:
         vs = c["value"][0]
